@@ -4,7 +4,9 @@
 (* cases and the token soups).  One RESULT line per case.                      *)
 EXTENDS MetaGrammar, Json, IOUtils
 
-Cases  == JsonDeserialize(IOEnv.VT_CASES)          \* Seq of [id, toks]
+\* Seq of [id, toks, raws]; parsed once (a definition would be re-evaluated at every use)
+ASSUME TLCSet(2, JsonDeserialize(IOEnv.VT_CASES))
+Cases  == TLCGet(2)
 Listed == JsonDeserialize(IOEnv.VT_DEVS)           \* Seq of deviation clause names (the listed open findings)
 ListedSet == {Listed[i] : i \in 1..Len(Listed)}
 TxListed  == ListedSet \cap TxDevs
@@ -13,18 +15,20 @@ VARIABLE i
 Init == i = 0
 
 Result(c) ==
-  LET text == c.toks
+  LET text == Expand(c.toks, c.raws, {})              \* as the grammar compiler lexes it
       f == Facts(text)
       l == f.ok
-      x == IF TxListed = {} THEN l ELSE InL(text, TxListed)
+      TxIn(D) == InL(Expand(c.toks, c.raws, D), D)    \* as textx.tx under D lexes and parses it
+      x == IF TxListed = {} THEN l ELSE TxIn(TxListed)
   IN [id |-> c.id,
       l |-> l,                                        \* the compiler's grammar accepts
       x |-> x,                                        \* textx.tx, as described by the listed Tx clauses, accepts
-      by |-> IF l = x THEN {} ELSE {d \in TxListed : InL(text, {d}) # l},   \* clauses that flip the verdict alone
+      by |-> IF l = x THEN {} ELSE {d \in TxListed : TxIn({d}) # l},   \* clauses that flip the verdict alone
       cls |-> ClassF(f),
       allowed |-> AllowedF(f, {}),
       leaks |-> {<<d, e>> \in (ListedSet \cap C23Devs) \X {"TypeError", "UnicodeDecodeError", "RecursionError", "AttributeError"} :
                    e \in LeaksF(f, {d})},                 \* what each listed C23 clause admits in addition
+      wh |-> WellHosted(c.toks, FALSE),               \* the harness kept slashes and quotes out of what follows a chunk
       cov |-> CoverageF(f)]
 
 Next == i < Len(Cases) /\ i' = i + 1 /\ PrintT("RESULT|" \o ToJson(Result(Cases[i + 1])))
